@@ -68,8 +68,16 @@ type counters struct {
 	evals, canon, noncanon, neg, zero int64
 }
 
+func (c *counters) merge(o *counters) {
+	atomic.AddInt64(&c.evals, o.evals)
+	atomic.AddInt64(&c.canon, o.canon)
+	atomic.AddInt64(&c.noncanon, o.noncanon)
+	atomic.AddInt64(&c.neg, o.neg)
+	atomic.AddInt64(&c.zero, o.zero)
+}
+
 func checkCompact(r *evid.Run, c uint32, ct *counters, full bool) {
-	atomic.AddInt64(&ct.evals, 1)
+	ct.evals++
 	v := blockchain.CompactToBig(c)
 	if full || c&0xfff == 0 {
 		if ref := refValue(c); ref.Cmp(v) != 0 {
@@ -79,17 +87,17 @@ func checkCompact(r *evid.Run, c uint32, ct *counters, full bool) {
 	back := blockchain.BigToCompact(v)
 	isCanon := canonical(c)
 	if isCanon {
-		atomic.AddInt64(&ct.canon, 1)
+		ct.canon++
 		if back != c {
 			r.Violate("C09|roundtrip-canonical", "BigToCompact(CompactToBig(c)) != c for canonical c", map[string]interface{}{"kind": "compact", "compact": c, "back": back})
 		}
 	} else {
-		atomic.AddInt64(&ct.noncanon, 1)
+		ct.noncanon++
 	}
 	if v.Sign() < 0 {
-		atomic.AddInt64(&ct.neg, 1)
+		ct.neg++
 	} else if v.Sign() == 0 {
-		atomic.AddInt64(&ct.zero, 1)
+		ct.zero++
 	}
 	// encoding never yields a larger target (magnitude), and here it is exact because v is
 	// representable.
@@ -151,10 +159,12 @@ func main() {
 	if r.Thorough() {
 		// all 2^32 compact encodings, 4096 shards
 		par.Go(4096, func(i int) {
+			var loc counters
 			base := uint32(i) << 20
 			for k := uint32(0); k < 1<<20; k++ {
-				checkCompact(r, base|k, &ct, false)
+				checkCompact(r, base|k, &loc, false)
 			}
+			ct.merge(&loc)
 		})
 		exhaustiveCompact = true
 	} else {
@@ -174,11 +184,13 @@ func main() {
 			ms = append(ms, m)
 		}
 		par.Go(256, func(e int) {
+			var loc counters
 			for s := uint32(0); s < 2; s++ {
 				for _, m := range ms {
-					checkCompact(r, uint32(e)<<24|s<<23|m, &ct, true)
+					checkCompact(r, uint32(e)<<24|s<<23|m, &loc, true)
 				}
 			}
+			ct.merge(&loc)
 		})
 	}
 
